@@ -40,10 +40,20 @@ def main():
         for r in ex.map(lambda d: one(d, tier), dirs):
             rows.append(r)
             print("%-10s %-4s %-12s %s" % (r[2], r[1], r[0], r[3]), flush=True)
+    # the table lists every stored change with the outcome of its most recent run (meta.json), not only the ones re-run now
     with open(VERIF + "/seeded/RESULTS.md", "w") as f:
-        f.write("# Seeded changes (written by independent sub-agents) against the property's own check (tools/reseed.py, tier %s)\n\n| change | property | result | first reason |\n|---|---|---|---|\n" % tier)
-        for r in rows:
-            f.write("| %s | %s | %s | %s |\n" % (r[0], r[1], r[2], r[3].replace("|", "/")))
+        f.write("# Seeded changes (written by independent sub-agents) against the property's own check (tools/seedeval.py / tools/reseed.py; most recent run of each)\n\n"
+                "| change | property | result | first reason |\n|---|---|---|---|\n")
+        n = det = 0
+        for d in sorted(glob.glob(VERIF + "/seeded/*/meta.json")):
+            m = json.load(open(d))
+            lines = m.get("check", {}).get("lines", [])
+            reason = (lines[1] if len(lines) > 1 else (lines[0] if lines else ""))[:160].replace("|", "/")
+            res = "DETECTED" if m.get("detected") else ("MACHINERY" if m.get("check", {}).get("exit") not in (0, 1) else "MISSED")
+            n += 1
+            det += 1 if m.get("detected") else 0
+            f.write("| %s | %s | %s | %s |\n" % (os.path.basename(os.path.dirname(d)), m.get("property"), res, reason))
+        f.write("\n%d of %d detected\n" % (det, n))
     miss = [r for r in rows if r[2] != "DETECTED"]
     print("%d/%d detected" % (len(rows) - len(miss), len(rows)))
     return 1 if miss else 0
